@@ -254,6 +254,42 @@ func ruleC14_2(c *Ctx) {
 				okZero = true
 			}
 		}
+		if !okZero && len(w.Params) == 1 {
+			// the same contract with early returns: the constant 0 is returned exactly where the error is known nil,
+			// and -1 is among the values returned for a non-nil error
+			type edge struct {
+				v   ssa.Value
+				blk *ssa.BasicBlock
+			}
+			var edges []edge
+			for _, r := range returnsOf(w) {
+				v := r.Results[0]
+				if ph, ok := v.(*ssa.Phi); ok && ph.Block() == r.Block() {
+					for i, e := range ph.Edges {
+						edges = append(edges, edge{e, r.Block().Preds[i]})
+					}
+				} else {
+					edges = append(edges, edge{v, r.Block()})
+				}
+			}
+			zeroUnderNil, zeroElsewhere, nilOther, minusOne := false, false, false, false
+			for _, e := range edges {
+				k, isK := constInt(e.v)
+				isNil := c.nilAt(w.Params[0], e.blk)
+				switch {
+				case isK && k == 0 && isNil:
+					zeroUnderNil = true
+				case isK && k == 0:
+					zeroElsewhere = true
+				case isNil:
+					nilOther = true
+				}
+				if isK && k == -1 && c.nonNilAt(w.Params[0], e.blk) {
+					minusOne = true
+				}
+			}
+			okZero = zeroUnderNil && !zeroElsewhere && !nilOther && minusOne
+		}
 		c.check(okZero, R, fname(w), "returns 0 for nil, -1 when no status can be inferred", w.Pos(), "result is a phi of const(0), const(-1) and ExitStatus()", "unexpected result shape")
 	}
 }
